@@ -596,6 +596,10 @@ def ref_third(apid: int, user: bytes):
         assert i is not None, "reference: STR without terminator"
         items.append(("STR", "Str", raw[:i].decode("utf-16-le"), raw))
         return "ok", items
+    if apid == 77:          # FAMILY is abstract and has no inheritors: its entries are decoded, then the packet is unrecognized
+        x = b.u(8)
+        items.append(("X8", "Int", x, x))
+        return "unrecognized", items
     if apid >= 300 and id_ == 10:                                       # value="010" is the decimal number ten
         y = b.u(8)
         items.append(("Y8", "Int", y, y))
@@ -622,6 +626,7 @@ def third_cases():
         ("zero-padded literal 010 is not eight (ID=8)", 2047, bytes([8, 0, 0x5A])),
         ("the idle APID 2047 is described by the document like any other (ID=10)", 2047, bytes([10, 3, 0xA5])),
         ("APID 0", 0, bytes([10, 3, 0xA5])),
+        ("an abstract container without inheritors describes no packet (APID 77)", 77, bytes([1, 2, 0x33])),
     ]
     return cases
 
